@@ -1,9 +1,288 @@
 package main
 
-import "golang.org/x/tools/go/ssa"
+// Loops are cut at their headers: on entry the invariants are proved (init), everything the loop can
+// assign is havocked, the invariants are assumed and the body is executed once; on the back edge the
+// invariants are proved again (preserved) and the path ends. Code after the loop therefore sees only
+// the invariant and the negated guard. A loop without invariant clauses gets the invariant `true`.
 
-// loopCut: placeholder until invariant-driven cutting is implemented (see loops section of DESIGN).
-func (ex *Exec) loopCut(st *State, b *ssa.BasicBlock, prev *ssa.BasicBlock, k cont) bool {
-	ex.oblige(st, "limit", fnName(ex.top)+"#tool-limit@loop", nil, TFalse, "loop without invariant support")
+import (
+	"fmt"
+	"go/types"
+
+	"golang.org/x/tools/go/ssa"
+)
+
+func loopOrdinal(fn *ssa.Function, h *ssa.BasicBlock) int {
+	n := 0
+	for _, b := range fn.Blocks {
+		if b == h {
+			return n
+		}
+		if isLoopHeader(b) {
+			n++
+		}
+	}
+	return -1
+}
+
+// loopBody returns the blocks of the natural loop with header h.
+func loopBody(h *ssa.BasicBlock) map[*ssa.BasicBlock]bool {
+	body := map[*ssa.BasicBlock]bool{h: true}
+	var work []*ssa.BasicBlock
+	for _, p := range h.Preds {
+		if h.Dominates(p) {
+			work = append(work, p)
+		}
+	}
+	for len(work) > 0 {
+		b := work[len(work)-1]
+		work = work[:len(work)-1]
+		if body[b] {
+			continue
+		}
+		body[b] = true
+		work = append(work, b.Preds...)
+	}
+	return body
+}
+
+func (ex *Exec) loopCut(st *State, h *ssa.BasicBlock, prev *ssa.BasicBlock, k cont) bool {
+	fr := st.top()
+	fn := fr.Fn
+	if fn != ex.top || ex.topC == nil {
+		ex.oblige(st, "limit", fnName(ex.top)+"#tool-limit@loop-in-inlined-callee", nil, TFalse, "loop inside an uncontracted callee: "+fnName(fn))
+		return true
+	}
+	ord := loopOrdinal(fn, h)
+	var invs []*Clause
+	for _, cl := range ex.topC.Clauses {
+		if cl.Kind == "invariant" && cl.Loop == ord {
+			invs = append(invs, cl)
+		}
+	}
+	backEdge := h.Dominates(prev)
+	// bind phis for evaluation of the invariant in the arriving state
+	idx := -1
+	for j, p := range h.Preds {
+		if p == prev {
+			idx = j
+		}
+	}
+	arrive := st
+	for _, in := range h.Instrs {
+		phi, ok := in.(*ssa.Phi)
+		if !ok {
+			break
+		}
+		arrive.top().Regs[phi] = ex.val(arrive, phi.Edges[idx])
+	}
+	phase := "init"
+	if backEdge {
+		phase = "preserved"
+	}
+	ex.checkInvariants(arrive, invs, ord, phase)
+	if backEdge {
+		return true
+	}
+	// first arrival: havoc what the loop may assign
+	ex.havocLoop(st, h)
+	// assume invariants
+	ctx := &EvalCtx{ex: ex, pre: ex.topPre, post: st, vars: ex.topVars, bound: map[string]Value{}, fn: fn}
+	for _, cl := range invs {
+		t, err := ctx.EvalBool(cl.E)
+		if err != nil {
+			ex.oblige(st, "binding", ex.topC.Key+"#binding", cl.Props, TFalse, fmt.Sprintf("loop %d invariant[%s]: %v", ord, cl.Label, err))
+			return true
+		}
+		st.assume(t)
+		for _, s := range ctx.side {
+			st.assume(s)
+		}
+		ctx.side = nil
+	}
+	if len(invs) == 0 {
+		ex.note(st, "loop %d has no invariant: treated as invariant true (assigned variables havocked)", ord)
+	}
+	// continue after the phis
+	start := 0
+	for i, in := range h.Instrs {
+		if _, ok := in.(*ssa.Phi); !ok {
+			start = i
+			break
+		}
+	}
+	ex.pathTrace = append(append([]string(nil), ex.pathTrace...), fmt.Sprintf("loop%d", ord))
+	if start == 0 {
+		ex.resumeHeader = h
+	}
+	ex.runBlock(st, h, prev, start, k)
 	return true
+}
+
+func (ex *Exec) checkInvariants(st *State, invs []*Clause, ord int, phase string) {
+	ctx := &EvalCtx{ex: ex, pre: ex.topPre, post: st, vars: ex.topVars, bound: map[string]Value{}, fn: st.top().Fn}
+	for _, cl := range invs {
+		if !relevant(cl, ex.prop) {
+			continue
+		}
+		t, err := ctx.EvalBool(cl.E)
+		if err != nil {
+			ex.oblige(st, "binding", ex.topC.Key+"#binding", cl.Props, TFalse, fmt.Sprintf("loop %d invariant[%s]: %v", ord, cl.Label, err))
+			continue
+		}
+		stq := st
+		if len(ctx.side) > 0 {
+			stq = st.clone()
+			for _, s := range ctx.side {
+				stq.assume(s)
+			}
+			ctx.side = nil
+		}
+		name := fmt.Sprintf("%s#loop%d.%s[%s]", ex.topC.Key, ord, phase, cl.Label)
+		ex.oblige(stq, "loop", name, cl.Props, t, cl.Text)
+	}
+}
+
+// havocLoop gives fresh values to everything the loop with header h can assign.
+func (ex *Exec) havocLoop(st *State, h *ssa.BasicBlock) {
+	fr := st.top()
+	body := loopBody(h)
+	for _, in := range h.Instrs {
+		phi, ok := in.(*ssa.Phi)
+		if !ok {
+			break
+		}
+		fr.Regs[phi] = ex.fresh(st, phi.Type(), "loop."+phi.Comment, 0)
+	}
+	havocAbs := false
+	for b := range body {
+		for _, in := range b.Instrs {
+			switch x := in.(type) {
+			case *ssa.Store:
+				ex.havocTarget(st, x.Addr)
+			case *ssa.MapUpdate:
+				if m, ok := fr.Regs[x.Map].(VMap); ok && m.Cell > 0 {
+					st.cells[m.Cell] = VMapVal{Set: Fresh("loop.map", SArray(SBytes, SBool))}
+				}
+			case ssa.CallInstruction:
+				cc := x.Common()
+				name := calleeName(cc)
+				switch name {
+				case "invoke:db.Iterator.Next":
+					if it, ok := fr.Regs[cc.Value].(VIter); ok {
+						st.cells[it.Cell] = VBV{Fresh("loop.iterpos", SBV(64)), false}
+					}
+				case "invoke:codec.BinaryCodec.MustUnmarshal", "invoke:codec.BinaryCodec.Unmarshal":
+					if len(cc.Args) >= 2 {
+						if mi, ok := cc.Args[1].(*ssa.MakeInterface); ok {
+							ex.havocTarget(st, mi.X)
+						}
+					}
+				case "(*math/big.Int).FillBytes", "(encoding/binary.bigEndian).PutUint32", "(encoding/binary.bigEndian).PutUint64", "builtin:copy":
+					for _, a := range cc.Args {
+						if v, ok := fr.Regs[a].(VSlice); ok && v.Obj >= 0 {
+							st.heap[v.Obj] = Fresh("loop.heap", SArr)
+						}
+					}
+				}
+				if fn := cc.StaticCallee(); fn != nil && isRepoFn(fn) {
+					if c, ok := ex.contracts[fnName(fn)]; ok {
+						for _, cl := range c.byKind("modifies") {
+							if len(cl.Mods) > 0 {
+								havocAbs = true
+							}
+						}
+						for _, cl := range c.byKind("assigns") {
+							for _, m := range cl.Mods {
+								for i, pn := range c.Params {
+									if m.Op == "ident" && m.Name == pn {
+										off := 0
+										if fn.Signature.Recv() != nil {
+											off = 1
+										}
+										if v, ok := fr.Regs[cc.Args[off+i]].(VSlice); ok && v.Obj >= 0 {
+											st.heap[v.Obj] = Fresh("loop.heap", SArr)
+										}
+									}
+								}
+							}
+						}
+					} else {
+						// uncontracted repo callee: conservatively forget the abstract state
+						havocAbs = true
+					}
+				}
+				if name == "(cosmossdk.io/store/prefix.Store).Set" || name == "(cosmossdk.io/store/prefix.Store).Delete" || name == "invoke:types.KVStore.Set" || name == "invoke:types.KVStore.Delete" {
+					st.rawHas = Fresh("loop.rawHas", SArray(SBytes, SBool))
+					st.rawVal = Fresh("loop.rawVal", SArray(SBytes, SBytes))
+					for p := range st.cnt {
+						st.cnt[p] = Fresh("loop.cnt", SBV(64))
+					}
+				}
+			}
+		}
+	}
+	if havocAbs {
+		for i := range comps {
+			st.abs[comps[i].Name] = Fresh("loop."+comps[i].Name, comps[i].arraySort())
+		}
+	}
+}
+
+// havocTarget forgets the memory an address expression may point to.
+func (ex *Exec) havocTarget(st *State, addr ssa.Value) {
+	fr := st.top()
+	switch a := addr.(type) {
+	case *ssa.Alloc:
+		if p, ok := fr.Regs[a].(VPtr); ok && p.Cell > 0 {
+			et := a.Type().(*types.Pointer).Elem()
+			if classify(et) == kByteArr {
+				if ba, ok := st.cells[p.Cell].(VByteArr); ok {
+					st.heap[ba.Obj] = Fresh("loop.heap", SArr)
+				}
+				return
+			}
+			st.cells[p.Cell] = ex.fresh(st, et, "loop."+a.Comment, 0)
+		}
+		// an Alloc executed inside the loop body has no register yet: nothing to forget
+	case *ssa.FieldAddr:
+		ex.havocTarget(st, a.X)
+	case *ssa.IndexAddr:
+		if v, ok := fr.Regs[a.X]; ok {
+			if s, ok := v.(VSlice); ok && s.Obj >= 0 {
+				st.heap[s.Obj] = Fresh("loop.heap", SArr)
+				return
+			}
+		}
+		ex.havocTarget(st, a.X)
+	case *ssa.Slice:
+		ex.havocTarget(st, a.X)
+	case *ssa.Parameter:
+		if v, ok := fr.Regs[a]; ok {
+			switch s := v.(type) {
+			case VSlice:
+				if s.Obj >= 0 {
+					st.heap[s.Obj] = Fresh("loop.heap", SArr)
+				}
+			case VPtr:
+				if s.Cell > 0 {
+					st.cells[s.Cell] = ex.fresh(st, a.Type().(*types.Pointer).Elem(), "loop.param", 0)
+				}
+			}
+		}
+	case *ssa.Global:
+		c := ex.globalCell(st, a)
+		st.cells[c] = ex.fresh(st, a.Type().(*types.Pointer).Elem(), "loop.global", 0)
+	case *ssa.FreeVar:
+		if v, ok := fr.Regs[a].(VPtr); ok && v.Cell > 0 {
+			st.cells[v.Cell] = ex.fresh(st, a.Type().(*types.Pointer).Elem(), "loop.freevar", 0)
+		}
+	case *ssa.Phi, *ssa.UnOp, *ssa.Call, *ssa.Extract:
+		// pointer of unknown provenance: give up precisely here
+		if v, ok := fr.Regs[addr]; ok {
+			if s, ok := v.(VSlice); ok && s.Obj >= 0 {
+				st.heap[s.Obj] = Fresh("loop.heap", SArr)
+			}
+		}
+	}
 }
